@@ -73,6 +73,7 @@ Matches(ev) ==
     [] ev.ev = "Fit"          -> ev.obj \in Live /\ Fit(ev.obj, ev.data)
     [] ev.ev = "FitTransform" -> ev.obj \in Live /\ FitTransform(ev.obj, ev.data)
     [] ev.ev = "CrossValidate" -> ev.obj \in Live /\ CrossValidate(ev.obj, ev.data)
+    [] ev.ev = "GridSearch"   -> ev.obj \in Live /\ GridSearch(ev.obj, ev.data)
     [] ev.ev = "SetThreshold" -> ev.obj \in Live /\ SetThreshold(ev.obj, ev.t)
     [] ev.ev = "Calibrate"    -> ev.obj \in Live /\ Calibrate(ev.obj, ev.v, ev.s)
     [] ev.ev = "Query"        -> ev.obj \in Live /\ Query(ev.obj, ev.q)
@@ -101,6 +102,9 @@ OutcomeFails(ev) ==
     [] ev.ev = "CrossValidate" ->
          IF ev.exc = "" /\ ev.out = Ref.crossval[last'[4][1]][last'[4][2]] THEN {}
          ELSE {"G17.cross_val_score_is_function_of_parameters_and_data"}
+    [] ev.ev = "GridSearch" ->
+         IF ev.exc = "" /\ ev.out = Ref.gridsearch[last'[3]] THEN {}
+         ELSE {"G17.grid_search_scores_are_the_cross_val_scores_of_each_setting"}
     [] ev.ev = "FitTransform" ->
          IF ev.exc # "" THEN {"TRACE.fit_raised"}
          ELSE IF ev.out = Ref.fit_transform[last'[4][1]][last'[4][2]] THEN {} ELSE {"G17.fit_transform_is_fit_then_transform"}
@@ -142,6 +146,7 @@ NextT ==
               \cup (IF Ev.ev \in {"Fit", "FitTransform"} THEN {"C18.fit_equals_fit_of_fresh_estimator_with_same_parameters"} ELSE {})
               \cup (IF Ev.ev = "FitTransform" THEN {"G17.fit_transform_is_fit_then_transform"} ELSE {})
               \cup (IF Ev.ev = "CrossValidate" THEN {"G17.cross_val_score_is_function_of_parameters_and_data"} ELSE {})
+              \cup (IF Ev.ev = "GridSearch" THEN {"G17.grid_search_scores_are_the_cross_val_scores_of_each_setting"} ELSE {})
   /\ arr' = Ev.arrays      \* a change is blamed on the event that made it, once
   /\ l' = l + 1 /\ UNCHANGED tid
 
